@@ -38,4 +38,12 @@ def main():
         subprocess.run(["git", "checkout", "--", "evidence"], cwd=os.path.join(os.path.dirname(os.path.abspath(__file__)), ".."), capture_output=True)
 
 if __name__ == "__main__":
-    sys.exit(main())
+    try:
+        rc = main()
+    except BrokenPipeError:      # output piped into head
+        rc = 0
+    try:
+        sys.stdout.flush()
+    except BrokenPipeError:
+        pass
+    os._exit(rc)
